@@ -185,7 +185,7 @@ def observe_container(mc) -> Dict[str, Any]:
                 try:
                     res = sorted(n.name for n in node.metador.query(s, ver))
                 except Exception as e:  # noqa: BLE001
-                    res = f"EXC {type(e).__name__}"
+                    res = "EXC"
                 queries[f"{s}|{ver}|{st}"] = res
     listings = {}
     for gname in groups:
@@ -201,7 +201,7 @@ def observe_container(mc) -> Dict[str, Any]:
             try:
                 probes[f"{what} {pth}"] = f()
             except Exception as e:  # noqa: BLE001
-                probes[f"{what} {pth}"] = f"EXC {type(e).__name__}"
+                probes[f"{what} {pth}"] = "EXC"          # exception classes are compared only coarsely
     return {"view": view, "meta": meta, "queries": queries, "listings": listings, "schemas": toc, "probes": probes}
 
 
@@ -254,7 +254,8 @@ class ContainerRun:
             self.dead = "timeout-in-read"
             return {"cls": cls, "err": err, "obs": {"READ": "timeout"}}
         except Exception as e:  # noqa: BLE001
-            obs = {"READ": f"{type(e).__name__}: {e}"[:200]}
+            obs = {"READ": "error"}
+            err = (err or "") + f" | observation failed: {type(e).__name__}: {e}"[:200]
         return {"cls": cls, "err": err, "obs": obs}
 
     def close(self):
@@ -273,9 +274,11 @@ def _first_key_diff(a: Any, b: Any, prefix="") -> str:
 
 
 def lockstep_container(ops, drivers=DRIVERS) -> Dict[str, Any]:
-    """Run the history through all drivers in lock-step; first difference against h5py.File."""
+    """Run the history through all drivers in lock-step; first difference against h5py.File.
+    A difference in the lookup probes alone is recorded once ("probe_diff") and the run goes
+    on without them, so that it does not mask differences of other kinds."""
     ensure_schemas()
-    out: Dict[str, Any] = {"diff": None, "classes": [], "nontrivial": 0, "error": None}
+    out: Dict[str, Any] = {"diff": None, "probe_diff": None, "classes": [], "nontrivial": 0, "error": None}
     with vlib.workdir("c09") as d:
         runs = []
         try:
@@ -296,14 +299,19 @@ def lockstep_container(ops, drivers=DRIVERS) -> Dict[str, Any]:
                         out["diff"] = {"step": i, "driver": drv, "aspect": aspect, "op": op,
                                        "what": f"{DRV_NAME[drv]}: {x['cls']} ({x['err']}) vs h5py.File: {ref['cls']} ({ref['err']})"}
                         return out
-                    if x["obs"] != ref["obs"]:
-                        a, b = x["obs"] or {}, ref["obs"] or {}
-                        aspect = next((k for k in ("READ", "view", "meta", "queries", "listings", "schemas", "probes")
+                    a, b = dict(x["obs"] or {}), dict(ref["obs"] or {})
+                    pa, pb = a.pop("probes", None), b.pop("probes", None)
+                    if a != b:
+                        aspect = next((k for k in ("READ", "view", "meta", "queries", "listings", "schemas")
                                        if a.get(k) != b.get(k)), "obs")
                         out["diff"] = {"step": i, "driver": drv, "aspect": aspect, "op": op,
                                        "what": f"{DRV_NAME[drv]} vs h5py.File differ in {aspect} at "
                                                + _first_key_diff(a.get(aspect), b.get(aspect))}
                         return out
+                    if pa != pb and out["probe_diff"] is None:
+                        out["probe_diff"] = {"step": i, "driver": drv, "aspect": "probes", "op": op,
+                                             "what": f"{DRV_NAME[drv]} vs h5py.File differ in a lookup that finds nothing: "
+                                                     + _first_key_diff(pa, pb)}
         except Exception as e:  # noqa: BLE001
             import traceback
             out["error"] = f"{type(e).__name__}: {e}"[:200] + " | " + traceback.format_exc()[-500:]
@@ -311,6 +319,11 @@ def lockstep_container(ops, drivers=DRIVERS) -> Dict[str, Any]:
             for r in runs:
                 r.close()
     return out
+
+
+def diffs_of(level: str, ops) -> List[Dict[str, Any]]:
+    r = lockstep_container(ops) if level == "container" else lockstep_protocol(ops)
+    return [d for d in (r.get("diff"), r.get("probe_diff")) if d]
 
 
 # ---- generator
@@ -377,9 +390,36 @@ def _spell(rng, cwd: List[str], target: List[str]) -> str:
     return absname(target)
 
 
-def gen_container_history(rng, nops: int, keys: List[str], p_bnd: float, features: Dict[str, bool]) -> List[list]:
+def _mirror_apply(mir: "Mirror", op):
+    """Approximate effect of a (prefix) operation on the generator's mirror."""
+    k = op[0]
+    if k in ("bnd", "reopen"):
+        return
+    if k in ("attach", "detach"):
+        t = tuple(s for s in op[1].split("/") if s)
+        (mir.meta.add if k == "attach" else mir.meta.discard)((t, op[2]))
+        return
+    cwd = [s for s in op[1].split("/") if s]
+
+    def res(p):
+        return [s for s in p.split("/") if s] if p.startswith("/") else cwd + [s for s in p.split("/") if s]
+    if k in ("mkgrp", "reqgrp"):
+        mir.mk(res(op[2]), "G")
+    elif k in ("mkds", "reqds", "set"):
+        mir.mk(res(op[2]), "D")
+    elif k == "del":
+        mir.rm(res(op[2]))
+    elif k in ("move", "copy"):
+        mir.cp(res(op[2]), res(op[3]), move=(k == "move"))
+
+
+def gen_container_history(rng, nops: int, keys: List[str], p_bnd: float, features: Dict[str, bool],
+                          prefix: Optional[List[list]] = None) -> List[list]:
     mir = Mirror()
     ops: List[list] = []
+    for op in prefix or []:
+        ops.append(op)
+        _mirror_apply(mir, op)
     val = lambda: rng.choice(VALUES)  # noqa: E731
     while len(ops) < nops:
         if rng.random() < p_bnd and ops and ops[-1][0] not in ("bnd", "reopen"):
@@ -504,7 +544,44 @@ def container_patterns() -> List[List[list]]:
     # replace-then-touch with metadata on a group
     P.append([["set", "/", "a/old", "i:1"], ["attach", "/a", S_PERSON, 0], ["bnd"], ["del", "/", "a"], ["mkgrp", "/", "a"],
               ["set", "/", "a/new", "i:2"], ["bnd"], ["attach", "/a", S_PERSON, 1], ["bnd"], ["aset", "/", "/a", "k", "i:4"]])
+    # create below a deleted ancestor (user level), with metadata on the old and the new nodes
+    P.append([["set", "/", "a/q", "i:1"], ["attach", "/a/q", S_SIMPLE, 0], ["attach", "/a", S_CHILD, 1], ["bnd"], ["del", "/", "a"], ["bnd"],
+              ["mkgrp", "/", "a/b/c"], ["set", "/", "a/b/c/d", "i:2"], ["attach", "/a/b", S_SIMPLE, 1], ["bnd"], ["set", "/a", "z", "i:3"],
+              ["attach", "/a/b/c/d", S_PERSON, 0], ["reopen"], ["copy", "/", "a/b", "a/q", False, False]])
+    P.append([["set", "/", "a/q/r", "i:1"], ["bnd"], ["del", "/a", "q"], ["mkgrp", "/", "a/q/r/s"], ["bnd"], ["set", "/", "a/q/t", "i:2"],
+              ["attach", "/a/q/r", S_SIMPLE, 0], ["bnd"], ["move", "/", "a/q", "m"], ["reqgrp", "/", "a/q/r"]])
     return P
+
+
+def targeted_prefix(rng, keys: List[str]) -> List[list]:
+    """Random instance of a shape that is delicate for the overlay, used as the start of a random
+    history: replace-then-touch, create below deleted ancestors, last metadata object of a
+    schema deleted in one patch and re-attached in a later one."""
+    k = [rng.choice(keys) for _ in range(5)]
+    if len(set(k[:3])) < 3:
+        return []
+    mb = lambda p=0.7: [rng.choice([["bnd"], ["bnd"], ["reopen"]])] if rng.random() < p else []  # noqa: E731
+    val = lambda: rng.choice(VALUES)  # noqa: E731
+    sc = lambda: rng.choice(SCHEMA_NAMES)  # noqa: E731
+    a, ab, abc = "/" + k[0], f"/{k[0]}/{k[1]}", f"/{k[0]}/{k[1]}/{k[2]}"
+    shape = rng.randrange(3)
+    H: List[list] = []
+    if shape == 0:      # create below deleted ancestors
+        H += [["set", "/", abc, val()]] + mb() + [["del", "/", rng.choice([a, ab])]] + mb()
+        H += [rng.choice([["mkgrp", "/", f"{ab}/{k[3]}/{k[4]}"], ["mkgrp", "/", abc], ["set", "/", f"{abc}/{k[3]}", val()],
+                          ["reqgrp", "/", f"{ab}/{k[3]}/{k[4]}"]])] + mb()
+        H += [rng.choice([["set", "/", f"{a}/{k[4]}", val()], ["attach", ab, sc(), 0], ["aset", "/", ab, "k", val()]])]
+    elif shape == 1:    # replace-then-touch
+        H += [["set", "/", f"{a}/{k[1]}", val()], ["attach", a, sc(), 0]] + mb(1.0) + [["del", "/", a]] + mb(0.3)
+        H += [rng.choice([["mkgrp", "/", a], ["set", "/", a, val()], ["set", "/", f"{a}/{k[2]}", val()]])]
+        for _ in range(rng.randint(1, 2)):
+            H += mb(1.0) + [rng.choice([["set", "/", f"{a}/{k[3]}", val()], ["aset", "/", a, "k", val()], ["attach", a, sc(), 0],
+                                        ["mkgrp", "/", f"{a}/{k[4]}"]])]
+    else:               # TOC bookkeeping: last object of a schema removed, later re-attached
+        s1 = sc()
+        H += [["set", "/", ab, val()], ["attach", ab, s1, 0]] + mb(1.0) + [["detach", ab, s1]] + mb()
+        H += [["attach", rng.choice([a, ab, "/"]), rng.choice([s1, sc()]), 0]] + mb() + [["attach", ab, sc(), 0]]
+    return H
 
 
 # ---------------------------------------------------------------------------- (B) protocol level
@@ -557,7 +634,7 @@ def do_request(root, it) -> list:
     except vlib.CaseTimeout:
         raise
     except Exception as e:  # noqa: BLE001
-        return ["exc", type(e).__name__, k]
+        return ["exc", k]       # exception classes are compared only coarsely
     raise ValueError(k)
 
 
@@ -711,18 +788,21 @@ def _same(d, target) -> bool:
     return d["aspect"] in ("read-refused", "probes") or (d["op"] or [None])[0] == (target["op"] or [None])[0]
 
 
+def _find_same(level, ops, target) -> Optional[Dict[str, Any]]:
+    return next((d for d in diffs_of(level, ops) if _same(d, target)), None)
+
+
 def canon_sig(level: str, d) -> Dict[str, Any]:
     op = d["op"] or ["?"]
     kind = op[0]
     if d["aspect"] in ("read-refused", "probes"):
-        kind = "read"          # one cause whatever the read request: the lookup raises
+        kind = "read"          # one cause whatever the request: the lookup raises
     return {"level": level, "aspect": d["aspect"], "op": kind}
 
 
 def w_shrink(job):
     level, ops, target = job
     ops = list(ops)
-    run = (lambda c: lockstep_container(c)["diff"]) if level == "container" else (lambda c: lockstep_protocol(c)["diff"])
     cut = None
     # cut after the failing step (container: step index = op index; protocol: request index)
     if level == "container":
@@ -736,13 +816,13 @@ def w_shrink(job):
                 cut = ops[:j + 1]
                 break
     try:
-        if cut and _same(run(cut), target):
+        if cut and _find_same(level, cut, target):
             ops = cut
-        elif not _same(run(ops), target):
+        elif not _find_same(level, ops, target):
             return None
 
         def fails(c):
-            return _same(run(c), target)
+            return _find_same(level, c, target) is not None
         small = vlib.ddmin(ops, fails, budget=60 if target["aspect"] != "timeout" else 16)
         # replace conditional requests by their taken branch where the failure survives
         if level == "protocol":
@@ -753,8 +833,8 @@ def w_shrink(job):
                         if fails(c):
                             small = c
                             break
-        d = run(small)
-        return {"ops": small, "diff": d} if _same(d, target) else None
+        d = _find_same(level, small, target)
+        return {"ops": small, "diff": d} if d else None
     except Exception:  # noqa: BLE001
         return None
 
@@ -778,10 +858,11 @@ def run(ctx: vlib.Ctx):
 
     # ---- (A) container level
     chists = list(container_patterns())
-    for _ in range(ctx.budget(44, 900)):
+    for _ in range(ctx.budget(44, 500)):
         keys = rng.sample(KEY_POOL, rng.randint(3, 6))
-        chists.append(gen_container_history(rng, rng.randint(6, ctx.budget(16, 26)), keys,
-                                            rng.choice([0.0, 0.12, 0.2, 0.3]), {}))
+        prefix = targeted_prefix(rng, keys) if rng.random() < 0.4 else []
+        chists.append(gen_container_history(rng, len(prefix) + rng.randint(4 if prefix else 6, ctx.budget(12 if prefix else 16, 22)), keys,
+                                            rng.choice([0.0, 0.12, 0.2, 0.3]), {}, prefix=prefix))
     cres = vlib.pmap(w_container, chists)
     csteps = cnontrivial = 0
     ckinds: Dict[str, int] = {}
@@ -793,12 +874,13 @@ def run(ctx: vlib.Ctx):
         cnontrivial += r["nontrivial"]
         for op in h[:len(r["classes"])]:
             ckinds[op[0]] = ckinds.get(op[0], 0) + 1
-        if r["diff"]:
-            hits.append({"level": "container", "ops": h, **r["diff"]})
+        for d in (r["diff"], r.get("probe_diff")):
+            if d:
+                hits.append({"level": "container", "ops": h, **d})
 
     # ---- (B) protocol level: three drivers + model
     phists = []
-    for _ in range(ctx.budget(150, 3000)):
+    for _ in range(ctx.budget(150, 1600)):
         keys = rng.sample(KEY_POOL, rng.randint(3, 6))
         akeys = rng.sample(KEY_POOL, rng.randint(1, 3))
         phists.append(gen_protocol_history(rng, rng.randint(4, ctx.budget(16, 28)), keys, akeys,
@@ -845,18 +927,16 @@ def run(ctx: vlib.Ctx):
                                   for h in picked], chunksize=1) if picked else []
     unconfirmed = 0
     for h, s in zip(picked, shrunk):
-        if s is None:
-            if h["aspect"] == "timeout":
-                unconfirmed += 1
-                continue
-            s = {"ops": h["ops"], "diff": {k: h[k] for k in ("step", "driver", "aspect", "op", "what")}}
+        if s is None:           # did not reproduce when the history was re-run alone (load, time-outs)
+            unconfirmed += 1
+            continue
         d = s["diff"]
         sig = canon_sig(h["level"], d)
         ctx.violation(f"[{h['level']}] step {d['step']} {d['op']}: {d['what']}",
                       {"kind": "lockstep", "level": h["level"], "ops": s["ops"], "diff": d, "canonical": sig},
                       sig_obj=sig)
     if unconfirmed:
-        ctx.notes.append(f"{unconfirmed} time-out hit(s) did not reproduce when re-run alone; not reported")
+        ctx.notes.append(f"{unconfirmed} lock-step difference(s) did not reproduce when the history was re-run alone; not reported")
 
     cov["evaluations"] = csteps * len(DRIVERS) + preq * len(DRIVERS)
     cov["distinct_nontrivial"] = cnontrivial + validated
@@ -926,6 +1006,8 @@ def replay(rep) -> int:
     if r.get("error"):
         print("error:", r["error"])
         return 1
-    d = r["diff"]
-    print("still failing:" if d else "no longer failing", d or "")
-    return 1 if d else 0
+    ds = [d for d in (r.get("diff"), r.get("probe_diff")) if d]
+    want = rep.get("diff") or {}
+    same = [d for d in ds if _same(d, want)] if want.get("aspect") else ds
+    print("still failing:" if same else "no longer failing", same[0] if same else (ds or ""))
+    return 1 if same else 0
